@@ -29,6 +29,8 @@ impl MlpgMatrix {
         let mut wuw = Vec::with_capacity(length);
 
         for t in 0..length {
+            #[cfg(feature = "verif-hooks")]
+            crate::verif::point("mlpg.wuw");
             wuw.push(vec![0.0; width]);
             wum.push(0.0);
 
@@ -78,6 +80,8 @@ impl MlpgMatrix {
     /// Perform Cholesky decomposition.
     fn ldl_factorization(&mut self) {
         for t in 0..self.length {
+            #[cfg(feature = "verif-hooks")]
+            crate::verif::point("mlpg.ldl");
             for i in 1..self.width.min(t + 1) {
                 self.wuw[t][0] -= self.wuw[t - i][i] * self.wuw[t - i][i] * self.wuw[t - i][0];
             }
@@ -96,6 +100,8 @@ impl MlpgMatrix {
         let mut g = vec![0.0; self.length];
         // forward
         for t in 0..self.length {
+            #[cfg(feature = "verif-hooks")]
+            crate::verif::point("mlpg.forward");
             g[t] = self.wum[t];
             for i in 1..self.width.min(t + 1) {
                 g[t] -= self.wuw[t - i][i] * g[t - i];
@@ -105,6 +111,8 @@ impl MlpgMatrix {
         let mut par = vec![0.0; self.length];
         // backward
         for t in (0..self.length).rev() {
+            #[cfg(feature = "verif-hooks")]
+            crate::verif::point("mlpg.backward");
             par[t] = g[t] / self.wuw[t][0];
             for i in 1..self.width.min(self.length - t) {
                 par[t] -= self.wuw[t][i] * par[t + i];
@@ -194,6 +202,8 @@ impl<'a> MlpgGlobalVariance<'a> {
     /// Adjust parameter's deviation from mean value using gv_mean
     fn conv_gv(&mut self, gv_mean: f64) {
         let (mean, vari) = self.calc_gv();
+        #[cfg(feature = "verif-hooks")]
+        crate::verif::point("gv.conv");
         let ratio = (gv_mean / vari).sqrt();
         self.par
             .iter_mut()
@@ -206,6 +216,8 @@ impl<'a> MlpgGlobalVariance<'a> {
 
         #[allow(clippy::needless_range_loop)]
         for t in 0..self.mtx.length {
+            #[cfg(feature = "verif-hooks")]
+            crate::verif::point("gv.derivative");
             g[t] = self.mtx.wuw[t][0] * self.par[t];
             for i in 1..self.mtx.width {
                 if t + i < self.mtx.length {
@@ -243,6 +255,8 @@ impl<'a> MlpgGlobalVariance<'a> {
 
         #[allow(clippy::needless_range_loop)]
         for t in 0..length {
+            #[cfg(feature = "verif-hooks")]
+            crate::verif::point("gv.step");
             let h = -W1 * w * self.mtx.wuw[t][0]
                 - W2 * 2.0 / (length * length) as f64
                     * ((length - 1) as f64 * gv_vari * (vari - gv_mean)
